@@ -2328,6 +2328,12 @@ impl Connection {
 
         let was_closed = self.state.is_closed();
         let was_drained = self.state.is_drained();
+        // Whether the reason this connection ended has already been handed to `self.error`
+        let reason_produced = match self.state {
+            State::Draining | State::Drained => true,
+            State::Closed(ref closed) => matches!(closed.reason, Close::Connection(_)),
+            _ => false,
+        };
 
         let decrypted = match packet {
             None => Err(None),
@@ -2410,8 +2416,10 @@ impl Connection {
 
         // State transitions for error cases
         if let Err(conn_err) = result {
-            self.error = Some(conn_err.clone());
-            self.state = match conn_err {
+            if !reason_produced {
+                self.error = Some(conn_err.clone());
+            }
+            let new_state = match conn_err {
                 ConnectionError::ApplicationClosed(reason) => State::closed(reason),
                 ConnectionError::ConnectionClosed(reason) => State::closed(reason),
                 ConnectionError::Reset
@@ -2434,6 +2442,11 @@ impl Connection {
                     unreachable!("CidsExhausted isn't generated by packet processing");
                 }
             };
+            // Once the reason was produced it is reported exactly once: a late stateless reset may
+            // still cut the draining period short, but is not a second reason
+            if !reason_produced || new_state.is_drained() {
+                self.state = new_state;
+            }
         }
 
         if !was_closed && self.state.is_closed() {
